@@ -264,7 +264,7 @@ theorem rebuilt_ok {n : Nat} {h h1 : Heap} (p : Pres n h h1) (a : Addr) (ha : n 
 theorem compositeRest_ok (n : Nat) (v : Visitor) (reg : List (String × Addr)) (a : Addr) (h : Heap) (t : TypeO)
     (i : Inv n h) (ha : n ≤ a) (ht : ∀ c, c ∈ t.fields → n ≤ c) :
     Pres n h (compositeRest v reg a h t).1 ∧ ∀ a', (compositeRest v reg a h t).2 = some a' → n ≤ a' := by
-  simp only [compositeRest]
+  simp only [compositeRest, rebuiltOrSame]
   obtain ⟨p, q⟩ := mapFilter_ok (onField_ok n v reg t.name) t.fields h i ht
   obtain ⟨pu, qu⟩ := rebuilt_ok p a ha t _ t.fields q
   cases v with
@@ -305,7 +305,7 @@ theorem onComposite_ok (n : Nat) (v : Visitor) (reg : List (String × Addr)) (h 
 theorem inputRest_ok (n : Nat) (v : Visitor) (reg : List (String × Addr)) (a : Addr) (nm : String) (h : Heap) (t : TypeO)
     (i : Inv n h) (ha : n ≤ a) (ht : ∀ c, c ∈ t.fields → n ≤ c) :
     Pres n h (inputRest v reg a nm h t).1 ∧ ∀ a', (inputRest v reg a nm h t).2 = some a' → n ≤ a' := by
-  simp only [inputRest]
+  simp only [inputRest, rebuiltOrSame]
   obtain ⟨p, q⟩ := mapFilter_ok (onInputField_ok n v reg) t.fields h i ht
   obtain ⟨pu, qu⟩ := rebuilt_ok p a ha t _ t.fields q
   cases v with
